@@ -7,6 +7,7 @@ import csv
 import io
 import json
 import os
+import re
 import uuid
 import yaml
 
@@ -44,6 +45,9 @@ class VersionConverter(object):
         parser = ET.XMLParser(remove_blank_text=True)
         if isinstance(self.filename, io.StringIO):
             doc = self.filename.getvalue()
+            # The content is already decoded; lxml refuses unicode strings
+            # carrying an XML declaration with an encoding.
+            doc = re.sub(r"^\s*<\?xml[^>]*\?>", "", doc, count=1)
             tree = ET.ElementTree(ET.fromstring(doc, parser))
 
         elif os.path.exists(self.filename) and os.path.getsize(self.filename) > 0:
